@@ -134,7 +134,52 @@ def run_for(prop, ctx=None):
     return summary
 
 
+def _worker(args):
+    p, prop, expect, silent = args
+    r = check_patch(p, prop, expect, silent)
+    r["label"] = r["patch"] if "seeded" not in p else "seeded/" + os.path.basename(os.path.dirname(p))
+    return r
+
+
+def main_parallel(props, nworkers):
+    """run the corpus with several workers, each with its own fact cache / cargo target dir"""
+    import multiprocessing
+    jobs = []
+    for prop in props:
+        for p, expect, silent in patches_for(prop):
+            jobs.append((p, prop, expect, silent))
+    base = factsmod.CACHE
+
+    def init(counter):
+        with counter.get_lock():
+            counter.value += 1
+            me = counter.value
+        d = base + "-w%d" % me
+        if not os.path.isdir(os.path.join(d, "target")):
+            os.makedirs(d, exist_ok=True)
+            if os.path.isdir(os.path.join(base, "target")):
+                subprocess.run(["cp", "-r", os.path.join(base, "target"), os.path.join(d, "target")])
+        factsmod.CACHE = d
+
+    counter = multiprocessing.Value("i", 0)
+    bad = 0
+    with multiprocessing.Pool(nworkers, initializer=init, initargs=(counter,)) as pool:
+        for r in pool.imap_unordered(_worker, jobs):
+            print("%-12s %-4s %-48s %s %s" % (r["status"], r["property"], r["label"], r.get("secs", ""),
+                                              (r.get("why") or "; ".join(r.get("reported", [])[:2]))[:200]), flush=True)
+            if r["status"] in ("MISSED", "FALSE-ALARM"):
+                bad += 1
+    return 1 if bad else 0
+
+
 def main():
+    if "-j" in sys.argv:
+        i = sys.argv.index("-j")
+        n = int(sys.argv[i + 1])
+        rest = sys.argv[1:i] + sys.argv[i + 2:]
+        props = rest or sorted({x.split("-")[0] for x in os.listdir(os.path.join(VERIF, "selftest", "mutants"))
+                                if x.endswith(".patch")})
+        return main_parallel(props, n)
     props = sys.argv[1:] or sorted({n.split("-")[0] for n in os.listdir(os.path.join(VERIF, "selftest", "mutants"))
                                     if n.endswith(".patch")})
     bad = 0
